@@ -37,6 +37,11 @@ type Bubble struct {
 	// Sites counts how often each yield site was the point where a goroutine was resumed.
 	Sites map[string]int
 	Trace func(format string, args ...interface{})
+	// Stalled, if set, names goroutines (by spawn site) that are slow right now: they are passed
+	// over while anybody else can run (a stalled node, not a dead one).
+	Stalled func(spawnSite string, step int) bool
+	// StalledSteps counts the steps at which a stalled goroutine was passed over.
+	StalledSteps int
 }
 
 type parkedG struct {
@@ -206,14 +211,38 @@ func (b *Bubble) RunUntil(done func() bool, horizon time.Duration, maxSteps int,
 				return Horizon
 			}
 		}
+		// slow goroutines step aside while somebody else can run
+		cand := make([]int, 0, n)
+		if b.Stalled != nil {
+			b.mu.Lock()
+			for i, p := range b.parked {
+				if !b.Stalled(b.live[p.id], b.Steps) {
+					cand = append(cand, i)
+				}
+			}
+			b.mu.Unlock()
+			if len(cand) == 0 || len(cand) == n {
+				cand = cand[:0]
+			} else {
+				b.StalledSteps++
+			}
+		}
 		alts := n
+		if len(cand) > 0 {
+			alts = len(cand)
+		}
 		if letTimePass {
-			alts = n + 1
+			alts++
 		}
 		k := 0
 		if alts > 1 {
 			k = b.Choose("sched", alts)
 			b.Preempt++
+		}
+		if letTimePass && k == alts-1 {
+			k = n // "let time pass"
+		} else if len(cand) > 0 {
+			k = cand[k]
 		}
 		b.Steps++
 		if b.OnStep != nil {
